@@ -266,6 +266,10 @@ func (s *streamHTTP) RecvMsg(m interface{}) error {
 			return io.EOF
 		}
 		s.rEOF = true
+		if stats := s.opts.statsHandler; stats != nil {
+			// The message is built from the URL alone.
+			stats.HandleRPC(s.ctx, inPayload(false, args, nil, time.Now()))
+		}
 	}
 	if count == 0 {
 		if err := s.params.set(args); err != nil {
